@@ -177,6 +177,26 @@ pub fn step(ctx: &Ctx, w: &World, ev: &mut Ev) {
         _ => return,
     };
     let kind = ctx.step.op.kind();
+    // an accepted transfer of a role takes effect: the holder the contract reports afterwards is the one named in the call
+    {
+        let post_eng = ctx.post.eng.clone().unwrap_or_default();
+        let moved: Option<(&str, String, String)> = match &ctx.step.op {
+            Op::EngineConfig { owner: Some(o), .. } => Some(("engine_owner", w.resolve(o), post_eng.owner.clone())),
+            Op::UpdatePauser { pauser } => Some(("pauser", w.resolve(pauser), post_eng.pauser.clone())),
+            Op::VammOwner { vamm, owner } => Some(("vamm_owner", w.resolve(owner), ctx.post.vamms[*vamm].owner.clone())),
+            Op::IfOwner { owner } => Some(("insurance_fund_owner", w.resolve(owner), ctx.post.if_owner.clone())),
+            Op::FpOwner { owner } => Some(("fee_pool_owner", w.resolve(owner), ctx.post.fp_owner.clone())),
+            Op::PfOwner { owner } if w.cfg.oracle == OracleKind::Real => Some(("pricefeed_owner", w.resolve(owner), ctx.post.pf_owner.clone())),
+            _ => None,
+        };
+        if let Some((role, named, holder)) = moved {
+            let combined = matches!(&ctx.step.op, Op::EngineConfig { insurance_fund, fee_pool, initial, maintenance, partial, liq_fee, .. } if insurance_fund.is_some() || fee_pool.is_some() || initial.is_some() || maintenance.is_some() || partial.is_some() || liq_fee.is_some());
+            ev.eval(true, &("transfer", role, combined, named == holder), || json!({"where": "main_history", "transfer_of": role, "to": named, "holder_afterwards": holder, "combined_with_other_fields": combined}));
+            if named != holder {
+                ev.violation("transfer_not_applied", &format!("{},{}", role, if combined { "combined" } else { "alone" }), json!({"named": named, "holder_afterwards": holder}));
+            }
+        }
+    }
     ev.eval(true, &("main", kind, ent.iter().any(|x| *x == sender)), || json!({"where": "main_history", "op": kind, "sender": sender}));
     if !ent.iter().any(|x| *x == sender) {
         ev.violation("unauthorized_succeeded", &format!("{},{},main", contract_of(&ctx.step.op), kind), json!({"sender": sender, "entitled": ent}));
